@@ -94,6 +94,10 @@ def run_case(case):
                 mols = t.topology.find_molecules()
                 out["others_used"] = [[a.index for a in mol] for mol in mols if mol not in anc]
             res = t.image_molecules(**kw)
+        try:      # Topology.find_molecules as a partition: atom lists ascending, molecules in their own order
+            out["molecules"] = [sorted(a.index for a in mol) for mol in t.topology.find_molecules()]
+        except ValueError:
+            out["molecules"] = None
         out["returned_is_self"] = res is t
         out["orig_xyz_same"] = bool(np.array_equal(t.xyz.view(np.uint32), before["xyz"].view(np.uint32)))
         out["orig_cell_same"] = bool(np.array_equal(t.unitcell_lengths, before["ul"]) and np.array_equal(t.unitcell_angles, before["ua"]))
